@@ -256,7 +256,7 @@ func c06Run(c *Ctx) {
 	}
 	// random programs with planted faults
 	r := c.Rand("random")
-	n := c.N(8000, 150000)
+	n := c.N(8000, 600000)
 	for k := 0; k < n; k++ {
 		g := NewPG(r, 10+r.Intn(40))
 		g.Faults = true
